@@ -366,6 +366,7 @@ def run(ctx):
     expand_rule(ctx, syn, rid="C17.EXPAND")   # to_webannotation walks targets through this expansion
     prefix_rule(ctx)
     flags_rule(ctx, syn)
+    iri_rule(ctx, syn)
     valueverbatim_rule(ctx, syn)
 
     # ---------------- SEP (separator / bracket typestate on the string accumulators)
@@ -696,3 +697,92 @@ def valueverbatim_rule(ctx, syn, rid="C17.VALUE"):
                 if rv_.get("k") == "path" and len(rv_["path"]) == 1 and rv_["path"][0] in bound:
                     ctx.report(r, "%s|%s" % (fn.name, c["method"]), "%s applies .%s() to the payload `%s` of a string value: what is exported (or the decision how to export it) is no longer the stored value - e.g. a string that is an IRI only after trimming is exported as an {\"id\": ..} object without its whitespace" % (fn.name, c["method"], rv_["path"][0]), fn.file, c.get("l"))
     ctx.floor(r, n, 1, "functions that take a string payload apart")
+
+
+# ---------------------------------------------------------------------- IRI
+def iri_rule(ctx, syn, rid="C17.IRI"):
+    """into_iri() prepends the configured prefix to everything is_iri() does not recognise.  An identifier that *is* an
+    IRI must be left alone whatever it contains after its scheme - more colons (urn:isbn:.., a port, a colon in the
+    path) included - or the target names another resource than the annotation does.  is_iri is evaluated from its
+    syntax tree (invalid_in_iri through its own body) on a grid of identifiers."""
+    from formula import Evaluator, Unknown, Panic, some
+    r = ctx.rule(rid, "is_iri() recognises an identifier by the scheme before its *first* colon (http, https, urn, file, _) and refuses whitespace and quotes; evaluated on a grid of identifiers with one and several colons")
+    fns = dict((f.name, f) for f in syn.fns if f.file == FILE and f.body is not None and f.self_ty is None)
+    if "is_iri" not in fns:
+        ctx.anchor_missing(r, "is_iri")
+        return
+    fn = fns["is_iri"]
+    ctx.functions_analysed.add(fn.qual)
+
+    def pred_of(a):
+        if isinstance(a, tuple) and a and a[0] == "fnpath":
+            return fns.get(a[1].split("::")[-1])
+        return None
+
+    def call_pred(ev, p_, c):
+        return Evaluator(hooks=hooks).run_body(p_.body, {(p_.sig["inputs"][0]["pat"].get("name")): c})
+
+    def h_find(ev, recv, args, node, env):
+        if isinstance(recv, str) and len(args) == 1:
+            a = args[0]
+            if isinstance(a, str):
+                i = recv.find(a)
+                return some(len(recv[:i].encode("utf8"))) if i >= 0 else None
+        return NotImplemented
+
+    def h_contains(ev, recv, args, node, env):
+        if isinstance(recv, str) and len(args) == 1 and isinstance(args[0], str):
+            return args[0] in recv
+        return NotImplemented
+
+    def h_split_once(rev):
+        def h(ev, recv, args, node, env):
+            if isinstance(recv, str) and len(args) == 1 and isinstance(args[0], str) and args[0]:
+                i = recv.rfind(args[0]) if rev else recv.find(args[0])
+                return some((recv[:i], recv[i + len(args[0]):])) if i >= 0 else None
+            return NotImplemented
+        return h
+    hooks = {"find": h_find, "contains": h_contains, "split_once": h_split_once(False), "rsplit_once": h_split_once(True),
+             "starts_with": lambda ev, recv, args, node, env: recv.startswith(args[0]) if isinstance(recv, str) and isinstance(args[0], str) else NotImplemented}
+
+    # a predicate function passed by name (s.find(invalid_in_iri) / s.contains(invalid_in_iri)): resolve the path to the local fn
+    class Ev2(Evaluator):
+        def e_path(self, e, env):
+            p_ = e["path"]
+            if len(p_) == 1 and p_[0] not in env and p_[0] in fns:
+                return ("localfn", fns[p_[0]])
+            return Evaluator.e_path(self, e, env)
+
+    def with_pred(base):
+        def h(ev, recv, args, node, env):
+            if isinstance(recv, str) and len(args) == 1 and isinstance(args[0], tuple) and args[0] and args[0][0] == "localfn":
+                f2 = args[0][1]
+                pn = f2.sig["inputs"][0]["pat"].get("name")
+                hits = [i for i, c in enumerate(recv) if Ev2(hooks=hooks).run_body(f2.body, {pn: c}) is True]
+                if node["method"] == "find":
+                    return some(len(recv[:hits[0]].encode("utf8"))) if hits else None
+                return bool(hits)
+            return base(ev, recv, args, node, env)
+        return h
+    hooks["find"] = with_pred(h_find)
+    hooks["contains"] = with_pred(h_contains)
+    grid = [("http://example.org/x", True), ("https://example.org/x", True), ("https://host:8443/path", True), ("urn:isbn:0451450523", True), ("urn:uuid:6e8b", True), ("file:///tmp/a:b.txt", True),
+            ("_:b1", True), ("http://example.org/a:b#c", True), ("plain", False), ("my id", False), ("mailto:x@y", False), ("foo:bar", False), ("x:http", False), ("http://a b", False), ("", False), ("a\"b:c", False)]
+    pn = fn.sig["inputs"][0]["pat"].get("name")
+    n = 0
+    seen_kinds = set()
+    for ident, want in grid:
+        try:
+            got = Ev2(hooks=hooks).run_body(fn.body, {pn: ident})
+        except (Unknown, Panic) as ex:
+            ctx.report(r, "unevaluated", "is_iri could not be evaluated on %r (%s): which identifiers keep their own IRI is not established" % (ident, ex), fn.file, fn.line)
+            break
+        n += 1
+        if got is not want:
+            kind = "several-colons" if want and ident.count(":") > 1 else "scheme" if want else "accepted"
+            if kind in seen_kinds:
+                continue
+            seen_kinds.add(kind)
+            ctx.report(r, kind, "is_iri(%r) is %s, expected %s: %s" % (ident, got, want, "the identifier is an IRI already, but into_iri() now puts the configured prefix in front of it, so the exported target names another resource (`_:urn:isbn:..`)" if want else "something that is not an IRI is exported as one"), fn.file, fn.line, {"identifier": ident})
+    r.hit("is_iri", sample={"identifiers_evaluated": n})
+    ctx.floor(r, n, 10, "identifiers")
